@@ -11,6 +11,7 @@ RULE = ("signatures are generated FROM WITNESSES: a random real SYN/SYN+ACK is b
 ASSUMPTIONS = ["'satisfiable' is read relative to the base packet's type (SYN / SYN+ACK) and IP version: the witness has both in common with the base",
                "random.randrange/randint/choice are replaced by a recording stub with min/max/uniform/adversarial policies"]
 EXHAUSTIVE = {}
+GEN_TIE = "imp"   # impersonate/tcp.py is also TRANSLATED (translate/imp2coq.py) on every run and proved equal to the model (Gen/GenImpP.v)
 MD = 35
 POLICIES = ["min", "max", "uniform", "uniform", "adversarial"]
 
@@ -77,7 +78,7 @@ def generate(R, tier):
         if edge and s["wtype"] == 3:
             h = R.choice([1, 50, 99, 100, 101, 65535 // s["wsize"], 65535 // s["wsize"] + 1, 65535])
             base["opts"] = W.pad4(W.o_mss(max(0, min(65535, h))) + R.choice(["", "01" + W.o_ws(7)]), "01")
-        yield {"stream": "witness", "witness": wspec, "sig": G.sig_text(s), "base": base, "ether": R.random() < 0.15, "hops": hops,
+        yield {"stream": "witness", "witness": wspec, "sig": G.sig_text(s), "base": base, "ether": R.choice([False] * 16 + [True, True, "padded", "padded"]), "hops": hops,
                "mtu": R.choice([1500, 1500, 1500, 1400, 9000]) if s["wtype"] == 4 else 1500,
                "uptime": R.choice([None, None, None, 123456]), "policy": R.choice(POLICIES)}
 
@@ -156,11 +157,26 @@ def impl_init():
     def int_only(v):
         return v if isinstance(v, int) and not isinstance(v, bool) else None
 
+    def payload_without_padding(tcp):
+        from scapy.packet import Padding
+        pl = bytes(tcp.payload)
+        pad = tcp.getlayer(Padding)
+        return pl[:len(pl) - len(bytes(pad))] if pad is not None else pl
+
     def impl(c):
         st["policy"] = c["policy"]
         st["log"] = []
         st["R"] = random.Random(hash(c["sig"]) & 0xFFFF)
         base = U.scapy_from_spec(c["base"])
+        given = base
+        if c["ether"] == "padded":
+            # as sniffed from the wire: a short Ethernet frame is padded, Scapy dissects the trailer as a Padding layer under TCP
+            frame = bytes(Ether(src="02:00:00:00:00:01", dst="02:00:00:00:00:02") / base)
+            pad = (b"\x00" * max(2, 60 - len(frame))) if len(c["sig"]) % 2 else b"\xaa\xbb\x00\x00\x00\x00"
+            given = Ether(frame + pad)
+            base = given.getlayer("IP") or given.getlayer("IPv6")
+        elif c["ether"]:
+            given = Ether(src="02:00:00:00:00:01", dst="02:00:00:00:00:02") / base
         tcp = base.getlayer("TCP")
         ip = base
         opts = dict(tcp.options)
@@ -173,8 +189,7 @@ def impl_init():
                         "ipflags": int(ip.flags) if ip.version == 4 else 0, "frag": ip.frag if ip.version == 4 else 0,
                         "proto": ip.proto if ip.version == 4 else 6, "sport": tcp.sport, "dport": tcp.dport, "seq": tcp.seq, "ack": tcp.ack,
                         "flags": int(tcp.flags), "urg": tcp.urgptr, "win": tcp.window, "mss": int_only(opts.get("MSS")), "ws": int_only(opts.get("WScale")),
-                        "ts1": int_only(ts[0]), "ts2": int_only(ts[1]), "payload": bytes(tcp.payload).hex()}}
-        given = Ether(src="02:00:00:00:00:01", dst="02:00:00:00:00:02") / base if c["ether"] else base
+                        "ts1": int_only(ts[0]), "ts2": int_only(ts[1]), "payload": payload_without_padding(tcp).hex()}}
         kw = {}
         if c["mtu"] != 1500:
             kw["mtu"] = c["mtu"]
@@ -192,7 +207,7 @@ def impl_init():
         rt = res.getlayer("TCP")
         ro = [(n, list(v) if isinstance(v, tuple) else (v.hex() if isinstance(v, bytes) else v)) for n, v in rt.options]
         out["outf"] = {"src": res.src, "dst": res.dst, "sport": rt.sport, "dport": rt.dport, "seq": rt.seq, "ack": rt.ack, "flags": int(rt.flags),
-                       "win": rt.window, "urg": rt.urgptr, "opts": ro, "payload": bytes(rt.payload).hex(), "id": res.id if res.version == 4 else None,
+                       "win": rt.window, "urg": rt.urgptr, "opts": ro, "payload": payload_without_padding(rt).hex(), "id": res.id if res.version == 4 else None,
                        "same_object": res is given}
         out["basef"] = {"src": ip.src, "dst": ip.dst}
         db = U.load_db("[tcp:request]\nlabel = s:unix:X:y\nsig = %s\n[tcp:response]\nlabel = s:unix:X:y\nsig = %s\n" % (c["sig"], c["sig"]))
@@ -207,6 +222,11 @@ def impl_init():
 
 def zero_checksums(hexs, v):
     b = bytearray.fromhex(hexs)
+    # bytes after the end of the datagram (a Padding layer kept behind a kept payload) are not part of the packet
+    if v == 4 and len(b) >= 20:
+        b = b[:max(20, int.from_bytes(b[2:4], "big"))]
+    elif v == 6 and len(b) >= 40:
+        b = b[:40 + int.from_bytes(b[4:6], "big")]
     if v == 4 and len(b) >= 20:
         b[10:12] = b"\0\0"
         t = (b[0] & 15) * 4
